@@ -115,7 +115,9 @@ CONFIG_DOCS = [".Im b\\e.png", ".Im b\\e.png cap", ".Im d\\e", ".Im d\\e cap", "
                ".X set lang e\"n\nt", ".X set xhtml-css a&b\".css\nt", ".X set xhtml-favicon f\"<.ico\nt", ".X set dmark <\n.D\nt", ".X set dmark &\n.D\nt",
                ".X set xhtml-custom-ids 1\n.Ch -id a&b T\nt\n.Sh -id c\"d U\n.Tc\n.Sx a&b", ".X set xhtml-custom-ids 1\n.Ch -id a<b T\n.Tc",
                ".X set xhtml-chap-custom-filenames 1\n.Ch -id a&b T\nt\n.Ch -id c\"d U\nu\n.Tc", ".X set xhtml-chap-custom-filenames 1\n.X set xhtml-custom-ids 1\n.Ch -id a'b T\n.Sh -id x>y U",
-               ".X set xhtml-chap-prefix p\"q\n.Ch T\nt", ".X set xhtml-chap-prefix p&q\n.Ch T\nt"]
+               ".X set xhtml-chap-prefix p\"q\n.Ch T\nt", ".X set xhtml-chap-prefix p&q\n.Ch T\nt",
+               ".X mtag -f xhtml -t u -c b -a |k<|v\n.Sm -t u w", ".X mtag -f xhtml -t u -c b -a |k&|v\n.Sm -t u w", ".X mtag -f xhtml -t u -c b -a |1k|v\n.Bm -t u\nw\n.Em",
+               ".X dtag -f xhtml -t d -c div -a |-k|v\n.Bd -t d\nw\n.Ed", ".X mtag -f xhtml -t c<d -c b\n.Sm -t c<d w", ".X mtag -f xhtml -t c&d -c b\n.Bm -t c&d\nw\n.Em"]
 
 
 def config_cases(modes, pre=""):
